@@ -39,7 +39,7 @@ APPLICATORS = {"properties", "items", "prefixItems", "anyOf", "oneOf", "allOf", 
 @st.composite
 def strategy_(draw, tier):
     sets = chance(draw, 0.5)
-    cfg = {"max_depth": 3 if tier == "quick" else 4, "fall_back": False, "explicit_unique": not sets}
+    cfg = {"max_depth": 3 if tier == "quick" else 4, "generics": True, "fall_back": False, "explicit_unique": not sets}
     prog = draw(gen.programs(cfg))
     opts = {"additional_properties": chance(draw, 0.3), "fall_back_on_default": False,
             "aliaser": pick(draw, ["id", "id", "camel", "pfx"]), "coerce": False, "all_refs": pick(draw, [None, True, False])}
@@ -67,11 +67,12 @@ def has_kind(prog, t, kinds, seen=None) -> bool:
         if t["i"] in seen:
             return False
         seen.add(t["i"])
-        return any(has_kind(prog, f["t"], kinds, seen) for f in prog["classes"][t["i"]]["fields"])
+        return any(has_kind(prog, f["t"], kinds, seen) for f in prog["classes"][t["i"]]["fields"]) or \
+            any(has_kind(prog, x, kinds, seen) for x in t.get("args", []))
     if k == "newtype":
         return has_kind(prog, prog["newtypes"][t["i"]]["of"], kinds, seen)
     return any(has_kind(prog, t[key], kinds, seen) for key in ("of", "key", "val") if isinstance(t.get(key), dict)) or \
-        any(has_kind(prog, x, kinds, seen) for key in ("alts", "items") for x in t.get(key, []))
+        any(has_kind(prog, x, kinds, seen) for key in ("alts", "items", "args") for x in t.get(key, []))
 
 
 def has_unique_constraint(prog) -> bool:
